@@ -78,6 +78,20 @@ let step _ cs os =
   if not (C01.c01_wf c) then out := ["DRIVER-ERROR\tcase not well-formed"] else begin
     if not (C01.ok_C01 c model) then out := "BAD\tside=model\tclause=ok_C01(model)=false (theorem C01_holds contradicted?)" :: !out;
     if not (C01.ok_C01 c impl) then out := "BAD\tside=impl\tclause=ok_C01" :: !out;
+    (* the builder route (bld=<48 header bytes>:<payload is query ++ body>:<error code used>): the
+       header must be the encoding of the model's [build] for the same inputs *)
+    (match get_opt of_ "bld" with
+     | Some s ->
+       (match split_on ':' s with
+        | [hdr; pay; ec] ->
+          let h = c.C01.c_hdr in
+          let bm = Message.build { Message.b_id = h.Header.h_id; b_query = c.C01.c_query; b_body = c.C01.c_body;
+                                   b_qfmt = h.Header.h_qfmt; b_bfmt = h.Header.h_bfmt;
+                                   b_notify = (h.Header.h_notify <> n_of_int 0); b_ec = n_of_hex ec } in
+          if bytes_of_hex hdr <> Header.encode bm.Message.m_hdr || pay <> "1" then
+            out := "BAD\tside=impl\tclause=MessageBuilder::build: header is not the encoding of the built message (lengths, formats) or the payload is not query ++ body" :: !out
+        | _ -> failwith "bad bld")
+     | None -> ());
     if impl <> model then out := ("DIFF\tfields=" ^ describe_diff impl model) :: !out
   end;
   !out
